@@ -21,7 +21,7 @@ class Prop(SeqProp):
     thorough_cases = 6000
     rule = ("random operation sequences (append/prepend/extend/pre_extend/remove/pop_back/pop_front/move_to_front/"
             "move_to_back/move_after/rotate) on member nodes chosen by identity, payload classes {distinct, all equal, "
-            "__eq__ raises, falsy objects}, constructor with data and one-shot iterables for the extends, payload returned by pops; after every op forward walk, backward walk, len, head, tail and every (prev,next) pair are "
+            "__eq__ raises, falsy objects}, constructor with data and one-shot iterables for the extends, iterables that raise after k items or pop the list's own front while being consumed, payload returned by pops; after every op forward walk, backward walk, len, head, tail and every (prev,next) pair are "
             "compared with the Lean model; distinct = distinct op sequence, non-trivial = at least 3 ops and a move/rotate/remove")
     trusted_base = ["Lean 4.33.0 kernel", "axioms: propext, Classical.choice, Quot.sound (audited per theorem)",
                     "hand-written model Model/Dll.lean tied to lists.py by this correspondence run",
@@ -38,6 +38,10 @@ class Prop(SeqProp):
                  "D2: long run of equal payloads"),
             Case(["append", "rot 1", "rot 0", "mtf 0", "mtb 0", "pop_back", "pop_back", "pop_front", "mtf 0"],
                  {"payload": "equal"}, "singleton and empty list edge cases"),
+            Case(["extend 2", "extendx 2", "append", "pre_extendx 1", "prepend", "extendx 0", "pop_back", "pop_front"],
+                 {"payload": "distinct"}, "extends whose iterable raises after some items, then ordinary use"),
+            Case(["append", "extendpf 1", "append", "extendpf 2", "pop_front", "pop_front", "extendpf 1", "extendx 1", "append"],
+                 {"payload": "falsy"}, "extend with a generator that pops the list's own front"),
         ]
 
     def gen(self, rng, n, tier):
@@ -54,7 +58,8 @@ class Prop(SeqProp):
         for _ in range(length):
             r = rng.random()
             if not members or r < 0.18:
-                kind = rng.choice(["append", "prepend", "extend", "pre_extend"])
+                kind = rng.choice(["append", "prepend", "extend", "pre_extend", "append", "prepend", "extend", "pre_extend",
+                                   "extendx", "pre_extendx", "extendpf"])
                 if kind == "append":
                     ops.append("append"); members.append(fresh); fresh += 1
                 elif kind == "prepend":
@@ -64,6 +69,23 @@ class Prop(SeqProp):
                     ops.append(f"extend {k}")
                     for _ in range(k):
                         members.append(fresh); fresh += 1
+                elif kind == "extendx":
+                    k = rng.randint(0, 3)
+                    ops.append(f"extendx {k}")
+                    for _ in range(k):
+                        members.append(fresh); fresh += 1
+                elif kind == "pre_extendx":
+                    k = rng.randint(0, 3)
+                    ops.append(f"pre_extendx {k}")
+                    for _ in range(k):
+                        members.insert(0, fresh); fresh += 1
+                elif kind == "extendpf":
+                    k = rng.randint(1, 3)
+                    ops.append(f"extendpf {k}")
+                    for _ in range(k):
+                        if not members:
+                            break
+                        members.pop(0); members.append(fresh); fresh += 1
                 else:
                     k = rng.randint(0, 4)
                     ops.append(f"pre_extend {k}")
@@ -235,6 +257,43 @@ class Prop(SeqProp):
                     while n is not None and cnt < k:
                         reg(n); n = n.next_node; cnt += 1
                     out.append(fin("ok"))
+                elif w[0] in ("extendx", "pre_extendx", "extendpf"):
+                    # iterables that misbehave: one that raises after k items (the items consumed so far stay linked, as in
+                    # a Python list), one that pops the front of this very list before each of its items
+                    k = int(w[1]); old_tail, old_head = l.tail, l.head
+                    popped = []
+
+                    def gen():
+                        for _ in range(k):
+                            if w[0] == "extendpf":
+                                # the node made for the previous item sits at the tail now: name it before it can be popped
+                                if l.tail is not None and id(l.tail) not in ident:
+                                    reg(l.tail)
+                                popped.append(l.pop_front())
+                            yield payload()
+                        if w[0] != "extendpf":
+                            raise RuntimeError("iterable failed")
+                    try:
+                        (l.pre_extend if w[0] == "pre_extendx" else l.extend)(gen())
+                    finally:
+                        if w[0] == "pre_extendx":
+                            n = l.tail if old_head is None else old_head.prev_node
+                            cnt = 0
+                            while n is not None and cnt < k:
+                                reg(n); n = n.prev_node; cnt += 1
+                        else:
+                            # nodes created by this call: those not registered yet, in creation (= forward) order
+                            seen = set(id(x) for x in nodes)
+                            n = l.head
+                            fuel = len(nodes) + k + 1
+                            new = []
+                            while n is not None and fuel > 0:
+                                if id(n) not in seen:
+                                    new.append(n)
+                                n = n.next_node; fuel -= 1
+                            for x in new:
+                                reg(x)
+                    out.append(fin("ok"))
                 elif w[0] == "pre_extend":
                     k = int(w[1]); old_head = l.head
                     vals = [payload() for _ in range(k)]
@@ -295,6 +354,20 @@ class Prop(SeqProp):
             elif w[0] == "pre_extend":
                 for _ in range(int(w[1])):
                     ref.insert(0, fresh); fresh += 1
+            elif w[0] == "extendx":
+                for _ in range(int(w[1])):
+                    ref.append(fresh); fresh += 1
+                exp_res = "err RuntimeError"
+            elif w[0] == "pre_extendx":
+                for _ in range(int(w[1])):
+                    ref.insert(0, fresh); fresh += 1
+                exp_res = "err RuntimeError"
+            elif w[0] == "extendpf":
+                for _ in range(int(w[1])):
+                    if not ref:
+                        exp_res = "err IndexError"
+                        break
+                    ref.pop(0); ref.append(fresh); fresh += 1
             elif w[0] == "remove":
                 x = int(w[1])
                 if x not in ref:
